@@ -30,9 +30,15 @@ typedef struct { iora_sv _text; size_t _pos; ParseLimits _limits; const char *_e
 #define JSON_N(s) ((s)->_text.n)
 #define JSON_AT(s, i) ((s)->_text.p[i])
 #define JSON_UAT(s, i) ((uint8_t)(s)->_text.p[i])
-/* a parser object over an arbitrary text of arbitrary length */
-#define JSON_PRE(s) (IORA_TRUE && __CPROVER_is_fresh(s, sizeof(*(s))) && (s)->_text.n <= JSON_IN_MAX \
-                     && __CPROVER_is_fresh((s)->_text.p, (s)->_text.n))
+/* a parser object over an arbitrary text of arbitrary length. One __CPROVER_requires per is_fresh, NOT joined by && (measured:
+ * `IORA_TRUE && is_fresh(..) && ..` makes every pointer a guarded choice between the fresh object and the harness' dummy object:
+ * 235k variables / 17 s for _parseNull; separate unconditional clauses: 11k variables / 1 s) */
+#define JSON_PRE(s) \
+  __CPROVER_requires(__CPROVER_is_fresh(s, sizeof(*(s)))) \
+  __CPROVER_requires((s)->_text.n <= JSON_IN_MAX) \
+  __CPROVER_requires(__CPROVER_is_fresh((s)->_text.p, (s)->_text.n)) \
+  __CPROVER_requires(IORA_TRUE)
+#define JSON_FRESH(o) __CPROVER_requires(__CPROVER_is_fresh(o, sizeof(*(o))))
 
 /* std::string_view::substr(pos, count): out_of_range when pos > size() */
 static inline iora_sv json_sv_substr(const iora_sv *s, size_t pos, size_t cnt)
